@@ -1,3 +1,5 @@
 import JdSpec.CanonEq
 import JdSpec.HunkSem
 import JdSpec.FloatLaws
+import JdSpec.Rfc7386
+import JdSpec.Rfc6902
